@@ -176,6 +176,16 @@ def run_impl(pair, hist, diag_present, catch_last):
     if m.measured_value.is_value_set:
       val = m.measured_value.value
     out['meas'][name] = {'value': norm_value(val), 'outcome': m.outcome.name, 'marginal': bool(m.marginal)}
+    # the record as it is handed on (output callbacks, station): the recorded value is there exactly when one was recorded
+    rendered = m.as_base_types()
+    has = 'measured_value' in rendered
+    if has != bool(m.measured_value.is_value_set):
+      out.setdefault('render_bad', []).append('%s: is_value_set=%s but the base-type record %s a measured_value (value %r)'
+                                              % (name, m.measured_value.is_value_set, 'has' if has else 'has no', val))
+    elif has and SPECS[pair[0 if name == 'ma' else 1]]['kind'] == 'scalar':
+      from vf.ref import render as _render  # pylint: disable=g-import-not-at-top
+      if not _render.same(_render.jsonish(rendered['measured_value']), _render.jsonish(_render.base(val))):
+        out.setdefault('render_bad', []).append('%s: base-type record shows %r, recorded value is %r' % (name, rendered['measured_value'], val))
   # declared measurement objects must be untouched (they are copied per run)
   out['decl_outcomes'] = (ma.outcome.name, mb.outcome.name)
   return out
@@ -270,6 +280,8 @@ def compare(pair, hist, diag_present, catch_last=True):
                   % (exp.get('phase_error'), got['phase_outcome'], got['phase_result'])))
   elif got['phase_outcome'] != exp['phase_outcome']:
     bad.append(('phase-outcome', 'phase outcome %s, reference %s' % (got['phase_outcome'], exp['phase_outcome'])))
+  for msg in got.get('render_bad', []):
+    bad.append(('rendered-value', msg))
   if got['decl_outcomes'] != ('UNSET', 'UNSET'):
     bad.append(('declaration-mutated', 'declared measurement objects changed: %r' % (got['decl_outcomes'],)))
   return bad, got
@@ -280,6 +292,12 @@ def histories(pair, depth):
   for d in range(1, depth + 1):
     for h in itertools.product(ops, repeat=d):
       yield list(h)
+  # one step deeper: two coordinates of one dimensioned measurement, then the FIRST one again (rows keep first-assignment order)
+  if depth == 2:
+    setcs = [o for o in ops if o[0] == 'setc']
+    for a, b, c in itertools.product(setcs, repeat=3):
+      if a[1] == b[1] == c[1] and a[2] == c[2] and a[2] != b[2] and len(a[2]) == len(b[2]):
+        yield [a, b, c]
   # one step deeper for histories in which the phase looks at a measurement between two assignments
   for h in itertools.product(ops, repeat=depth + 1):
     if h[1][0] == 'peek' and h[0][0] != 'peek' and h[-1][0] != 'peek' and (depth == 2 or h[2][0] != 'peek'):
